@@ -893,6 +893,7 @@ class Program:
         self._attr_busy: Set[Tuple[str, str]] = set()
         # code moved into helpers that did not exist in the pinned tree is analysed where it came from
         from .inline import Inliner
+        self._devirtualise_cls()
         self._push_down_pulled_up()
         self.inliner = Inliner(self)
         self.inliner.run()
@@ -971,6 +972,24 @@ class Program:
         if origin is not None and origin in mro:
             return mro[mro.index(origin) + 1:]
         return mro[1:]
+
+    def _devirtualise_cls(self) -> None:
+        """inside a classmethod of a class without subclasses, `cls(..)` is the class itself (`StepControlResult.from_step_result`
+        written with `cls(...)` constructs a StepControlResult)"""
+        for ci in self.classes.values():
+            if ci.subclasses:
+                continue
+            for m in ci.methods.values():
+                if not any(d.split(".")[-1] == "classmethod" for d in getattr(m, "decorators", [])):
+                    continue
+                a = m.node.args.posonlyargs + m.node.args.args
+                if not a or a[0].arg != "cls":
+                    continue
+                if any(isinstance(n, ast.Name) and n.id == "cls" and isinstance(n.ctx, ast.Store) for n in ast.walk(m.node)):
+                    continue
+                for n in ast.walk(m.node):
+                    if isinstance(n, ast.Call) and isinstance(n.func, ast.Name) and n.func.id == "cls":
+                        n.func = ast.copy_location(ast.Name(id=ci.name, ctx=ast.Load()), n.func)
 
     def _push_down_pulled_up(self) -> None:
         """pull-up refactorings: a method the pinned tree defined in class C that C now inherits from a base-class method which did
